@@ -81,7 +81,13 @@ func (w *zzRW) Header() http.Header         { return w.hdr }
 func (w *zzRW) Write(b []byte) (int, error) { return len(b), nil }
 func (w *zzRW) WriteHeader(code int)        { zzStatus = code }
 
-var zzMethods = []string{"GET", "POST", "PUT", "HEAD", ""}
+// zzMethod: the HTTP method is an arbitrary string of 0..7 bytes (the length
+// is case-split, the bytes are solver variables), so any method-based special
+// case in the code under test is reachable.
+func zzMethod() string {
+	n := []int{0, 3, 4, 5, 6, 7}[zzvrf.Pick("method-length", 6)]
+	return zzvrf.Str("method", n)
+}
 
 // ZZ_C19_Authn: the authentication wrapper for every combination of the two
 // switches, loopback classification (oracle), malformed remote address and
@@ -94,7 +100,7 @@ func ZZ_C19_Authn(cookie int) {
 	zzMalformed, zzLoopback = zzvrf.Bool("remote-addr-malformed"), zzvrf.Bool("remote-addr-is-loopback")
 	h := &Handler{conf: conf}
 	next := func(w http.ResponseWriter, r *http.Request) { zzNextRan++ }
-	r := &http.Request{Method: zzMethods[zzvrf.Pick("method", len(zzMethods))], RemoteAddr: "x"}
+	r := &http.Request{Method: zzMethod(), RemoteAddr: "x"}
 	h.Authn(next).ServeHTTP(&zzRW{}, r)
 	allowed := zzvrf.Or(conf.Dashboard.DisableAuthn, zzvrf.Or(zzvrf.And(!conf.Dashboard.EnableLoopbackAuthn, zzvrf.And(zzLoopback, !zzMalformed)), cookie == 2))
 	zzvrf.Assert((zzNextRan == 1) == allowed, "served-iff-disabled-or-loopback-or-own-session")
@@ -123,7 +129,7 @@ func ZZ_C19_Login(plen, slen int) {
 	} else {
 		zzvrf.Assert(len(h.password) == 16, "generated-password-length")
 	}
-	method := zzMethods[zzvrf.Pick("method", len(zzMethods))]
+	method := zzMethod()
 	r := &http.Request{Method: method, RemoteAddr: "x"}
 	h.Login(&zzRW{}, r)
 	right := zzFormPass == string(h.password)
